@@ -7,6 +7,7 @@ import (
 	"encoding/json"
 	"fmt"
 	"sort"
+	"strings"
 
 	"github.com/cosmos/cosmos-sdk/simapp"
 	sdk "github.com/cosmos/cosmos-sdk/types"
@@ -35,10 +36,17 @@ type Config struct {
 	OrderMaxBids  uint32   `json:"orderMaxBids"` // 0 = keep the default
 	// DSeqTable maps the model's dseq d (1-based) to the concrete deployment sequence number.
 	DSeqTable []uint64 `json:"dseqTable"`
+	// ForeignCoins > 0: every party also holds that many coins of a second denomination (ForeignDenom), which no
+	// marketplace transaction may move (denomination confusion, C01).
+	ForeignCoins int64 `json:"foreignCoins"`
 }
 
+// ForeignDenom is the second denomination of worlds with ForeignCoins > 0.
+const ForeignDenom = "uatom"
+
 // DefaultDSeqs collide as binary and decimal prefixes (C06).
-var DefaultDSeqs = []uint64{1, 12, 256, 257, 65536}
+// Entries 6.. agree with entries 1, 2, 3 modulo 2^32 (a sequence number squeezed through 32 bits somewhere).
+var DefaultDSeqs = []uint64{1, 12, 256, 257, 65536, 1<<32 + 1, 1<<32 + 12, 1<<40 + 256}
 
 // World is one application instance plus the name <-> address mapping.
 type World struct {
@@ -77,12 +85,22 @@ func NewWorld(cfg Config) (*World, error) {
 	for i, d := range cfg.DSeqTable {
 		w.dseqI[d] = i + 1
 	}
-	provs := pickOrdered("provider", len(cfg.Providers))
-	for i, n := range cfg.Providers {
-		w.addr[n] = provs[i]
-	}
+	// a name listed both as tenant and as provider is ONE account (a tenant that registers as a provider and bids on
+	// its own order); only the other providers take part in the ProvRank order
+	isTenant := map[string]bool{}
 	for _, n := range cfg.Tenants {
+		isTenant[n] = true
 		w.addr[n] = seedAddr("tenant-" + n)
+	}
+	var pure []string
+	for _, n := range cfg.Providers {
+		if !isTenant[n] {
+			pure = append(pure, n)
+		}
+	}
+	provs := pickOrdered("provider", len(pure))
+	for i, n := range pure {
+		w.addr[n] = provs[i]
 	}
 	for _, n := range cfg.Auditors {
 		w.addr[n] = seedAddr("auditor-" + n)
@@ -105,6 +123,9 @@ func NewWorld(cfg Config) (*World, error) {
 	for i, n := range names {
 		accts = append(accts, authtypes.NewBaseAccount(w.addr[n], nil, uint64(i), 0))
 		c := sdk.NewCoins(sdk.NewInt64Coin(Denom, cfg.InitCoins))
+		if cfg.ForeignCoins > 0 {
+			c = c.Add(sdk.NewInt64Coin(ForeignDenom, cfg.ForeignCoins))
+		}
 		bals = append(bals, banktypes.Balance{Address: w.addr[n].String(), Coins: c})
 		total = total.Add(c...)
 	}
@@ -149,9 +170,15 @@ func NewWorld(cfg Config) (*World, error) {
 // PartyNames returns all party names in a fixed order.
 func (w *World) PartyNames() []string {
 	var out []string
-	out = append(out, w.Cfg.Tenants...)
-	out = append(out, w.Cfg.Providers...)
-	out = append(out, w.Cfg.Auditors...)
+	seen := map[string]bool{}
+	for _, l := range [][]string{w.Cfg.Tenants, w.Cfg.Providers, w.Cfg.Auditors} {
+		for _, n := range l {
+			if !seen[n] {
+				seen[n] = true
+				out = append(out, n)
+			}
+		}
+	}
 	return out
 }
 
@@ -167,6 +194,10 @@ func (w *World) Addr(name string) (sdk.AccAddress, error) {
 func (w *World) Name(bech string) (string, error) {
 	n, ok := w.name[bech]
 	if !ok {
+		// the same account spelled in upper case (bech32 allows it) is the same party
+		if n, ok = w.name[strings.ToLower(bech)]; ok && bech == strings.ToUpper(bech) {
+			return n, nil
+		}
 		return "", fmt.Errorf("unprojectable address %q", bech)
 	}
 	return n, nil
